@@ -180,6 +180,10 @@ def deviations(honest, tls13=False):
         if tls13 and dict(honest)[i] in ("CH", "SH", "FIN", "HRR"):
             for frag in FRAGMENTS:
                 out.append({i: ("straddle", frag)})
+    # two adjacent messages left out together (an authentication pair such
+    # as Certificate + CertificateVerify is only skippable as a whole)
+    for a, b in zip(idxs, idxs[1:]):
+        out.append({a: ("skip",), b: ("skip",)})
     return out
 
 
@@ -225,9 +229,15 @@ def case(item):
         completed = v.status == "ok"
         seq = cut_at_completion(list(pup2.sent), victim, tls13)
         legal = in_language_full(H, seq, tls13, victim, cert_auth)
-        (i, act), = script.items()
-        desc = "%s@%d(%s)" % ("+".join(str(a) for a in act), i,
-                              dict(honest).get(i))
+        if len(script) == 2:
+            (i, _), (i2, _) = sorted(script.items())
+            act = ("skip2",)
+            desc = "skip2@%d,%d(%s,%s)" % (i, i2, dict(honest).get(i),
+                                           dict(honest).get(i2))
+        else:
+            (i, act), = script.items()
+            desc = "%s@%d(%s)" % ("+".join(str(a) for a in act), i,
+                                  dict(honest).get(i))
         rec["sigs"].add((act[0], completed, v.sig()[:3] if not completed
                          else None))
         fail = None
